@@ -137,481 +137,11 @@ fn c14(args: &Args) -> ! {
     rep.finish(args)
 }
 
-// ================================================================================== listen-based scenarios
-
-use vts::lworld::*;
-use vh::refmodel::{Flag, Kind, Req};
-
-fn req(k: Kind, f: Flag, t: &str) -> Vec<u8> {
-    Req::new(k, f, t).bytes()
+fn granularity() -> &'static str {
+    ""
 }
 
-fn split_at(b: &[u8], at: usize) -> Vec<Vec<u8>> {
-    vec![b[..at].to_vec(), b[at..].to_vec()]
-}
-
-fn healthy(tag: &str, variant: usize) -> ConnSpec {
-    let mut b = req(Kind::Echo, Flag::None, &format!("{}-1", tag));
-    b.extend(req(Kind::Stream2, Flag::More, ""));
-    b.extend(req(Kind::Echo, Flag::None, &format!("{}-2", tag)));
-    let chunks = match variant {
-        0 => vec![b],
-        1 => {
-            let at = b.len() / 2;
-            split_at(&b, at)
-        }
-        _ => {
-            let first = req(Kind::Echo, Flag::None, &format!("{}-1", tag)).len();
-            split_at(&b, first)
-        }
-    };
-    ConnSpec { chunks, closes: true, healthy: true, name: format!("healthy{}", variant), after_ticks: 0, close_after_ticks: 0, resets: false }
-}
-
-fn bad_peer(role: &str) -> ConnSpec {
-    match role {
-        "idle" => ConnSpec { chunks: vec![], closes: false, healthy: false, name: "idle".into(), after_ticks: 0, close_after_ticks: 0, resets: false },
-        "halfopen" => ConnSpec { chunks: vec![b"{\"method\":\"org.verif.t.Ec".to_vec()], closes: true, healthy: false, name: "halfopen".into(), after_ticks: 0, close_after_ticks: 0, resets: false },
-        "malformed" => ConnSpec { chunks: vec![b"{\"method\":7}\0{\"method\":\"org.verif.t.Echo\",\"parameters\":{\"v\":\"x\"}}\0".to_vec()], closes: false, healthy: false, name: "malformed".into(), after_ticks: 0, close_after_ticks: 0, resets: false },
-        "rude" => {
-            // pipelines tagged requests and disappears without reading a single reply
-            let mut b = vec![];
-            for i in 0..3 {
-                b.extend(req(Kind::Echo, Flag::None, &format!("RUDE-{}", i)));
-            }
-            ConnSpec { chunks: vec![b], closes: false, healthy: false, name: "rude".into(), after_ticks: 0, close_after_ticks: 0, resets: true }
-        }
-        // injected fault: the server cannot split this connection's stream (out of descriptors right after accept)
-        "nosplit" => ConnSpec { chunks: vec![req(Kind::Echo, Flag::None, "NOSPLIT")], closes: true, healthy: false, name: "nosplit".into(), after_ticks: 0, close_after_ticks: 0, resets: false },
-        "garbage" => ConnSpec { chunks: vec![b"\xff\xfe\0".to_vec(), b"[[[[\0".to_vec()], closes: false, healthy: false, name: "garbage".into(), after_ticks: 0, close_after_ticks: 0, resets: false },
-        _ => panic!("role"),
-    }
-}
-
-struct FamilyCfg {
-    bound: usize,
-    stateful: bool,
-    env_order_free: bool,
-    max_execs: u64,
-    horizon: usize,
-}
-
-fn run_family(args: &Args, rep: &mut Report, specs: Vec<(String, ListenSpec)>, fc: &FamilyCfg, budget: Duration) {
-    let t_start = Instant::now();
-    let n = specs.len();
-    let mine: Vec<(usize, (String, ListenSpec))> = specs.into_iter().enumerate().filter(|(i, _)| i % args.nshards == args.shard).collect();
-    let nm = mine.len().max(1);
-    static BLOCKED: std::sync::atomic::AtomicUsize = std::sync::atomic::AtomicUsize::new(0);
-    for (k, (si, (name, spec))) in mine.into_iter().enumerate() {
-        let blocked_scenarios = BLOCKED.load(std::sync::atomic::Ordering::SeqCst);
-        if blocked_scenarios >= 2 {
-            // every execution runs into the watchdog (6 s each): the verdict is established, stop here
-            rep.exhaustive = false;
-            rep.notes.push(format!("stopped after {} scenarios in which a server thread blocked; the remaining scenarios of this shard were not run", blocked_scenarios));
-            break;
-        }
-        let b = build_listen(spec.clone());
-        let cfg = ExploreCfg {
-            // quick tier: scenarios with three or more connections get one deviation less
-            bound: if !args.thorough() && spec.conns.len() >= 3 && fc.bound >= 2 && spec.prop == "C13" { fc.bound - 1 } else { fc.bound },
-            stateful: fc.stateful,
-            horizon: fc.horizon,
-            max_execs: fc.max_execs,
-            shard: 0,
-            nshards: 1,
-            deadline: Some(t_start + budget.mul_f64((k + 1) as f64 / nm as f64)),
-            env_order_free: fc.env_order_free,
-        };
-        let mut found: Vec<(String, String, Vec<usize>)> = vec![];
-        let prop = spec.prop.clone();
-        {
-            let repref = &mut *rep;
-            let mut on_exec = |x: &Exec, _p: &[usize]| {
-                let choices = x.choices();
-                repref.eval(Some(&format!("{}:{:?}", name, choices)));
-                repref.outcome(&format!("{}:{}", name, x.outcome));
-                if repref.want_sample() {
-                    repref.sample(json!({"scenario": name, "index": si, "choices": choices, "deviations": x.deviations(), "outcome": x.outcome}));
-                }
-                if let Some((sig, what)) = &x.violation {
-                    found.push((sig.clone(), what.clone(), choices));
-                } else if !x.panics.is_empty() && !spec.conns.iter().any(|c| c.name == "nosplit") {
-                    found.push((format!("{}/panic", prop), x.panics.join("; "), choices));
-                }
-            };
-            let stats = explore(&b, &cfg, &mut on_exec).unwrap_or_else(|f| fail_exit(f));
-            for h in &stats.states {
-                rep.state_hashes.insert(*h ^ hash_str(&name));
-            }
-            rep.count("transitions", stats.transitions);
-            rep.count("executions", stats.executions);
-            rep.count("max_choice_points", stats.max_points as u64);
-            rep.count("scenarios", 1);
-            if stats.capped {
-                rep.exhaustive = false;
-                rep.notes.push(format!("scenario {}: capped after {} executions", name, stats.executions));
-            }
-        }
-        found.sort_by_key(|f| (f.0.clone(), f.2.iter().filter(|c| **c != 0).count(), f.2.len()));
-        if found.iter().any(|f| f.0.contains("thread-blocked")) {
-            BLOCKED.fetch_add(1, std::sync::atomic::Ordering::SeqCst);
-        }
-        let mut seen = std::collections::HashSet::new();
-        for (sig, what, choices) in found {
-            let case = json!({"scenario": name, "index": si, "sub": args.sub, "choices": choices});
-            if seen.insert(sig.clone()) {
-                let x = run_one(&b, &choices, fc.horizon, true).unwrap_or_else(|f| fail_exit(f));
-                match &x.violation {
-                    Some((s2, _)) if *s2 == sig => rep.violation(&sig, &format!("{} ; schedule: {}", what, x.trace.join(" > ")), case),
-                    other => {
-                        if sig.ends_with("/panic") && !x.panics.is_empty() {
-                            rep.violation(&sig, &what, case)
-                        } else {
-                            fail_exit(Fail::Divergence(format!("violation {} did not reproduce on replay: {:?}", sig, other)))
-                        }
-                    }
-                }
-            } else {
-                rep.violation(&sig, &what, case);
-            }
-        }
-    }
-    rep.count("scenarios_total", if args.shard == 0 { n as u64 } else { 0 });
-}
-
-fn replay_family(args: &Args, rep: &mut Report, specs: Vec<(String, ListenSpec)>, horizon: usize) -> ! {
-    let case = args.replay_case().unwrap();
-    let name = case["scenario"].as_str().unwrap();
-    let choices: Vec<usize> = case["choices"].as_array().unwrap().iter().map(|c| c.as_u64().unwrap() as usize).collect();
-    let (_, spec) = specs.into_iter().find(|(n, _)| n == name).unwrap_or_else(|| {
-        eprintln!("unknown scenario {}", name);
-        std::process::exit(2)
-    });
-    let b = build_listen(spec);
-    let x = run_one(&b, &choices, horizon, true).unwrap_or_else(|f| fail_exit(f));
-    let y = run_one(&b, &choices, horizon, true).unwrap_or_else(|f| fail_exit(f));
-    if x.fingerprint() != y.fingerprint() {
-        fail_exit(Fail::Divergence("replay is not deterministic".into()));
-    }
-    rep.eval(Some("replay"));
-    rep.sample(json!({"case": case, "trace": x.trace}));
-    if let Some((sig, what)) = x.violation {
-        rep.violation(&sig, &format!("{} ; schedule: {}", what, x.trace.join(" > ")), case);
-    } else if !x.panics.is_empty() {
-        rep.violation("panic", &x.panics.join("; "), case);
-    }
-    rep.finish(args)
-}
-
-fn lspec(prop: &str, mode: Mode, initial: usize, max: usize, idle: u64, flag: bool, conns: Vec<ConnSpec>) -> ListenSpec {
-    ListenSpec { initial, max, idle_timeout: idle, flag, conns, mode, extra_ticks: 1, prop: prop.into(), flag_after_ticks: Some(0), strict_upgrade: false }
-}
-
-// ---------------------------------------------------------------------------------- C13
-
-fn c13_specs(thorough: bool) -> Vec<(String, ListenSpec)> {
-    let mut v = vec![];
-    let roles = ["idle", "halfopen", "malformed", "garbage", "rude"];
-    // two connections
-    for va in 0..3 {
-        for vb in 0..3 {
-            if !thorough && va != vb && va + vb != 1 {
-                continue;
-            }
-            v.push((format!("HH{}{}", va, vb), lspec("C13", Mode::Independent, 1, 3, 0, false, vec![healthy("A", va), healthy("B", vb)])));
-        }
-    }
-    for r in roles {
-        for va in 0..2 {
-            v.push((format!("H{}-{}", va, r), lspec("C13", Mode::Independent, 1, 3, 0, false, vec![healthy("A", va), bad_peer(r)])));
-            v.push((format!("{}-H{}", r, va), lspec("C13", Mode::Independent, 1, 3, 0, false, vec![bad_peer(r), healthy("A", va)])));
-        }
-    }
-    // a peer that vanishes with replies outstanding, then a healthy one that gets the same worker
-    for va in 0..2 {
-        v.push((format!("rude-H{}", va), lspec("C13", Mode::Independent, 1, 3, 0, false, vec![bad_peer("rude"), healthy("A", va)])));
-        v.push((format!("rude-rude-H{}", va), lspec("C13", Mode::Independent, 1, 3, 0, false, vec![bad_peer("rude"), bad_peer("rude"), healthy("A", va)])));
-    }
-    v.push(("H-rude-H".into(), lspec("C13", Mode::Independent, 1, 2, 0, false, vec![healthy("A", 1), bad_peer("rude"), healthy("B", 0)])));
-    // a connection the server cannot even set up (its stream cannot be split): the worker that met it must stay
-    // available, a later long-lived connection and a healthy one next to it are both served below the limit
-    v.push(("nosplit-idle-H".into(), lspec("C13", Mode::Independent, 1, 2, 0, false, vec![bad_peer("nosplit"), bad_peer("idle"), healthy("A", 0)])));
-    v.push(("nosplit-H".into(), lspec("C13", Mode::Independent, 1, 1, 0, false, vec![bad_peer("nosplit"), healthy("A", 1)])));
-    v.push(("H-nosplit-idle-H".into(), lspec("C13", Mode::Independent, 1, 3, 0, false, vec![healthy("A", 0), bad_peer("nosplit"), bad_peer("idle"), healthy("B", 0)])));
-    // a pool that has to grow, and one that starts big
-    v.push(("HH-grow".into(), lspec("C13", Mode::Independent, 1, 2, 0, false, vec![healthy("A", 1), healthy("B", 2)])));
-    v.push(("HH-init2".into(), lspec("C13", Mode::Independent, 2, 4, 0, false, vec![healthy("A", 1), healthy("B", 2)])));
-    // three connections
-    v.push(("HHH".into(), lspec("C13", Mode::Independent, 1, 4, 0, false, vec![healthy("A", 0), healthy("B", 1), healthy("C", 2)])));
-    v.push(("H-idle-H".into(), lspec("C13", Mode::Independent, 1, 4, 0, false, vec![healthy("A", 1), bad_peer("idle"), healthy("B", 0)])));
-    v.push(("malformed-H-halfopen".into(), lspec("C13", Mode::Independent, 2, 4, 0, false, vec![bad_peer("malformed"), healthy("A", 2), bad_peer("halfopen")])));
-    if thorough {
-        for r1 in roles {
-            for r2 in roles {
-                v.push((format!("{}-H-{}", r1, r2), lspec("C13", Mode::Independent, 1, 4, 0, false, vec![bad_peer(r1), healthy("A", 1), bad_peer(r2)])));
-            }
-        }
-        v.push(("HHHH".into(), lspec("C13", Mode::Independent, 1, 5, 0, false, vec![healthy("A", 0), healthy("B", 1), healthy("C", 2), healthy("D", 0)])));
-    }
-    v
-}
-
-fn c13(args: &Args) -> ! {
-    let mut rep = Report::new("C13", "the real listen() loop + thread pool + handle() over in-memory streams under the controlled scheduler: 2..4 connections with roles {healthy (3 pipelined tagged requests in 1-2 chunks), idle, half-open, malformed, garbage, rude (pipelines requests and vanishes: later server writes fail), nosplit (injected fault: the server cannot split the accepted stream)}, every interleaving of listen thread, workers and environment actions (connect / deliver chunk / close) within the deviation bound (quick 2, and 1 for the scenarios with three connections; thorough 3); oracle: each healthy connection receives byte-for-byte its solo reply stream; non-trivial = distinct complete executions");
-    install_hooks();
-    let specs = c13_specs(args.thorough());
-    if args.replay.is_some() {
-        replay_family(args, &mut rep, c13_specs(true), 3000);
-    }
-    let fc = FamilyCfg { bound: if args.thorough() { 3 } else { 2 }, stateful: false, env_order_free: false, max_execs: if args.thorough() { 60_000 } else { 2_500 }, horizon: 3000 };
-    run_family(args, &mut rep, specs, &fc, Duration::from_secs(if args.thorough() { 1500 } else { 45 }));
-    rep.finish(args)
-}
-
-// ---------------------------------------------------------------------------------- C15
-
-fn c15_specs(thorough: bool) -> Vec<(String, ListenSpec)> {
-    let mut v = vec![];
-    let short = |t: &str, after: usize, close_after: usize| ConnSpec { chunks: vec![req(Kind::Echo, Flag::None, t)], closes: true, healthy: true, name: "short".into(), after_ticks: after, close_after_ticks: close_after, resets: false };
-    let streaming = |after: usize, close_after: usize| {
-        let mut b = req(Kind::Stream2, Flag::More, "");
-        b.extend(req(Kind::Echo, Flag::None, "s"));
-        ConnSpec { chunks: split_at(&b, b.len() - 10), closes: true, healthy: true, name: "streaming".into(), after_ticks: after, close_after_ticks: close_after, resets: false }
-    };
-    // a peer that ends its connection in the middle of a message (the complete request before it is answered)
-    let truncated = |after: usize, close_after: usize| {
-        let mut b = req(Kind::Echo, Flag::None, "t");
-        let part = req(Kind::Echo, Flag::None, "never-completed");
-        b.extend(&part[..part.len() / 2]);
-        ConnSpec { chunks: vec![b], closes: true, healthy: true, name: "truncated".into(), after_ticks: after, close_after_ticks: close_after, resets: false }
-    };
-    let pools: Vec<(usize, usize)> = if thorough { vec![(1, 1), (1, 2), (2, 4)] } else { vec![(1, 2)] };
-    for idle in [0u64, 1, 2] {
-        for flag in [false, true] {
-            // one "tick" is wait_time: 100 ms with a flag, idle_timeout s without; the idle deadline is `d` ticks
-            let d: usize = if flag { (idle * 10) as usize } else { 1 };
-            // scripted instants, in ticks: early, mid-period, just before the deadline, across the deadline(s)
-            let arrivals: Vec<usize> = if idle == 0 && !flag { vec![0] } else if idle == 0 { vec![0, 2] } else if flag { vec![0, d / 2, d - 1] } else { vec![0] };
-            // (without a flag and without an idle timeout the loop blocks in accept: no ticks, so no scripted delays)
-            let closes: Vec<usize> = if idle == 0 && !flag { vec![0] } else if idle == 0 { vec![0, 2] } else if flag { vec![0, d + 2] } else { vec![0, 1, 3] };
-            let flags: Vec<Option<usize>> = if !flag { vec![None] } else if idle == 0 { vec![Some(0), Some(1), Some(3)] } else { vec![None, Some(0), Some(d / 2), Some(d + 3)] };
-            for (pi, pm) in &pools {
-                for fl in &flags {
-                    let mk = |name: String, conns: Vec<ConnSpec>| {
-                        let mut sp = lspec("C15", Mode::Stopping, *pi, *pm, idle, flag, conns);
-                        sp.flag_after_ticks = *fl;
-                        (name, sp)
-                    };
-                    let tag = format!("idle{}-flag{}{}-pool{}.{}", idle, flag as u8, fl.map(|t| format!("@{}", t)).unwrap_or_default(), pi, pm);
-                    v.push(mk(format!("{}-none", tag), vec![]));
-                    for a in &arrivals {
-                        for c in &closes {
-                            v.push(mk(format!("{}-short@{}close@{}", tag, a, c), vec![short("a", *a, *c)]));
-                            if thorough || (*a == arrivals[arrivals.len() - 1] && *c == closes[closes.len() - 1]) || (*a == 0 && *c == 0) {
-                                v.push(mk(format!("{}-streaming@{}close@{}", tag, a, c), vec![streaming(*a, *c)]));
-                                v.push(mk(format!("{}-short@0,short@{}close@{}", tag, a, c), vec![short("a", 0, 0), short("b", *a, *c)]));
-                                v.push(mk(format!("{}-truncated@{}close@{}", tag, a, c), vec![truncated(*a, *c)]));
-                            }
-                            if thorough {
-                                v.push(mk(format!("{}-long@0close@{},short@{}", tag, c, a), vec![short("a", 0, *c), short("b", *a, 0)]));
-                                v.push(mk(format!("{}-short@0,streaming@{}close@{}", tag, a, c), vec![short("a", 0, 0), streaming(*a, *c)]));
-                            }
-                        }
-                    }
-                }
-            }
-        }
-    }
-    v
-}
-
-fn c15(args: &Args) -> ! {
-    let mut rep = Report::new("C15", "the real listen() loop under the controlled scheduler with a virtual clock (an accept timeout advances the clock by the requested timeout): configurations idle_timeout {0,1,2}s x stop flag {absent,present} x pools x connection histories {none, short, two short, long-lived + short, streaming reply in flight, short+streaming, a peer that closes in the middle of a message} with scripted instants (in timeout answers) for arrival {at once, mid-period, just before the deadline}, peer close {at once, across one or several deadlines} and flag {never, at once, mid-period, after the deadline}; every interleaving of listen thread, workers and environment actions within the deviation bound (quick 1, thorough 2) around each scripted timeline; oracle: Timeout only after >= idle_timeout without a new connection and with no accepted connection unfinished at the decision, Ok only after the flag and at the first timeout answer after it, every accepted connection drained with its complete reply stream, socket path removed, never returns with idle_timeout 0 and no flag; non-trivial = distinct complete executions");
-    install_hooks();
-    let specs = c15_specs(args.thorough());
-    if args.replay.is_some() {
-        replay_family(args, &mut rep, c15_specs(true), 4000);
-    }
-    let fc = FamilyCfg { bound: if args.thorough() { 2 } else { 1 }, stateful: false, env_order_free: false, max_execs: if args.thorough() { 20_000 } else { 400 }, horizon: 4000 };
-    run_family(args, &mut rep, specs, &fc, Duration::from_secs(if args.thorough() { 1500 } else { 45 }));
-    rep.finish(args)
-}
-
-// ---------------------------------------------------------------------------------- C02 socket clause (upgrade through listen)
-
-fn c02l_specs(thorough: bool) -> Vec<(String, ListenSpec)> {
-    let mut v = vec![];
-    let up = req(Kind::Upgrade, Flag::None, "");
-    let pre = req(Kind::Echo, Flag::None, "pre");
-    let payloads: Vec<(&str, Vec<u8>)> = vec![("1byte", b"X".to_vec()), ("text", b"hello\n\0wor\0ld".to_vec()), ("none", vec![])];
-    for (pn, p) in &payloads {
-        for with_pre in [false, true] {
-            let mut s = vec![];
-            if with_pre {
-                s.extend(&pre);
-            }
-            s.extend(&up);
-            s.extend(p);
-            // every single cut (and no cut); thorough: every pair of cuts
-            let mut cutsets: Vec<Vec<usize>> = vec![vec![]];
-            for a in 1..s.len() {
-                cutsets.push(vec![a]);
-            }
-            if thorough {
-                for a in 1..s.len() {
-                    for b in a + 1..s.len() {
-                        if (a + b) % 3 == 0 {
-                            cutsets.push(vec![a, b]);
-                        }
-                    }
-                }
-            }
-            for cs in cutsets {
-                let mut chunks = vec![];
-                let mut prev = 0;
-                for c in &cs {
-                    chunks.push(s[prev..*c].to_vec());
-                    prev = *c;
-                }
-                chunks.push(s[prev..].to_vec());
-                let conn = ConnSpec { chunks, closes: true, healthy: false, name: "upgrade".into(), after_ticks: 0, close_after_ticks: 0, resets: false };
-                v.push((format!("up-{}-pre{}-cuts{:?}", pn, with_pre as u8, cs), lspec("C02", Mode::Upgrade, 1, 2, 0, false, vec![conn.clone()])));
-                // the same with a handler for which the end of its input is the end of the session
-                let mut sp = lspec("C02", Mode::Upgrade, 1, 2, 0, false, vec![conn]);
-                sp.strict_upgrade = true;
-                v.push((format!("upstrict-{}-pre{}-cuts{:?}", pn, with_pre as u8, cs), sp));
-            }
-        }
-    }
-    v
-}
-
-fn c02l(args: &Args) -> ! {
-    let mut rep = Report::new("C02", "socket clause: an upgrade request followed by payload bytes (none / 1 byte / text with NULs and newlines), optionally preceded by a normal request, delivered to the real listen() worker loop over an in-memory stream in every single-cut segmentation (thorough: a third of all cut pairs) with the deliveries scheduled as environment actions (deviation bound 1); oracle: the recording upgraded handler (one that keeps the session across calls, and one that ends it when its input ends) saw exactly the bytes after the upgrade request, once; non-trivial = distinct complete executions");
-    install_hooks();
-    let specs = c02l_specs(args.thorough());
-    if args.replay.is_some() {
-        replay_family(args, &mut rep, c02l_specs(true), 2000);
-    }
-    let fc = FamilyCfg { bound: 1, stateful: false, env_order_free: false, max_execs: 400, horizon: 2000 };
-    run_family(args, &mut rep, specs, &fc, Duration::from_secs(if args.thorough() { 900 } else { 45 }));
-    rep.finish(args)
-}
-
-// ---------------------------------------------------------------------------------- C01 / C06 through listen
-
-fn c01l_specs(thorough: bool) -> Vec<(String, ListenSpec)> {
-    use vh::refmodel::*;
-    let mut v = vec![];
-    let alpha: Vec<(Kind, Flag)> = if thorough { alphabet() } else { flagless_alphabet() };
-    let maxlen = 2;
-    for s in sequences(alpha.len(), maxlen) {
-        let reqs = mk_seq(&alpha, &s);
-        let n = reqs.len();
-        // every batch split: requests delivered d at a time
-        for d in 1..=n {
-            let chunks: Vec<Vec<u8>> = reqs.chunks(d).map(|c| seq_bytes(c)).collect();
-            let conn = ConnSpec { chunks, closes: true, healthy: true, name: format!("{:?}", s), after_ticks: 0, close_after_ticks: 0, resets: false };
-            v.push((format!("seq{:?}-d{}", s, d), lspec("C01", Mode::Independent, 1, 1, 0, false, vec![conn])));
-        }
-    }
-    v
-}
-
-fn c01l(args: &Args) -> ! {
-    let mut rep = Report::new("C01", "through the real listen() worker loop over an in-memory stream: every request sequence of length<=2 (quick: 15 flag-less letters; thorough: all 60 letters) as one connection whose requests arrive in every batch split, deliveries scheduled as environment actions (deviation bound 1); oracle: the connection receives byte-for-byte the reply stream of the in-memory handler (itself checked against the reference model by the seqx part); non-trivial = distinct complete executions");
-    install_hooks();
-    if args.replay.is_some() {
-        replay_family(args, &mut rep, c01l_specs(true), 2000);
-    }
-    let specs = c01l_specs(args.thorough());
-    let fc = FamilyCfg { bound: 1, stateful: false, env_order_free: false, max_execs: 300, horizon: 2000 };
-    run_family(args, &mut rep, specs, &fc, Duration::from_secs(if args.thorough() { 1200 } else { 45 }));
-    rep.finish(args)
-}
-
-fn c06l_specs(_thorough: bool) -> Vec<(String, ListenSpec)> {
-    let mut v = vec![];
-    let bad: Vec<(&str, Vec<Vec<u8>>)> = vec![
-        ("not-json", vec![b"hello\0".to_vec()]),
-        ("bad-utf8", vec![b"{\"method\":\"\xff\xfe\"}\0".to_vec()]),
-        ("wrong-type", vec![b"{\"method\":7}\0".to_vec()]),
-        ("valid-then-bad", vec![req(Kind::Echo, Flag::None, "ok"), b"{\"method\":\"a.b\",\"more\":3}\0".to_vec()]),
-        ("empty-message", vec![b"\0".to_vec()]),
-        ("deep", vec![format!("{{\"method\":\"a.b\",\"parameters\":{}1{}}}\0", "[".repeat(200), "]".repeat(200)).into_bytes()]),
-        ("truncated-close", vec![b"{\"method\":\"org.verif.t.Echo\",\"param".to_vec()]),
-        ("nul-storm", vec![b"\0\0\0\0".to_vec()]),
-    ];
-    for (n, chunks) in bad {
-        let a = ConnSpec { chunks, closes: n == "truncated-close", healthy: false, name: n.into(), after_ticks: 0, close_after_ticks: 0, resets: false };
-        for first_bad in [true, false] {
-            let conns = if first_bad { vec![a.clone(), healthy("B", 1)] } else { vec![healthy("B", 1), a.clone()] };
-            // a third connection arrives afterwards: the pool must still serve it
-            let mut c3 = conns.clone();
-            c3.push(healthy("C", 0));
-            v.push((format!("{}-bad{}", n, if first_bad { "first" } else { "second" }), lspec("C06", Mode::Independent, 1, 3, 0, false, c3)));
-        }
-        // the faulty peer stays connected and the pool has a single worker: the faulty connection must have been
-        // closed (its worker released) for the healthy one to be served at all
-        v.push((format!("{}-holds-the-only-worker", n), lspec("C06", Mode::Independent, 1, 1, 0, false, vec![a.clone(), healthy("B", 0)])));
-        let mut a2 = a.clone();
-        a2.name = format!("{}-2", n);
-        v.push((format!("{}-twice-hold-both-workers", n), lspec("C06", Mode::Independent, 1, 2, 0, false, vec![a.clone(), a2, healthy("B", 1)])));
-    }
-    v
-}
-
-/// wide family: many malformed messages (long, with multi-byte characters at every offset) through
-/// listen(), default schedule only - the point is the input, not the interleaving
-fn c06w_specs(thorough: bool) -> Vec<(String, ListenSpec)> {
-    let mut v = vec![];
-    let long_tok: String = "é€x".repeat(if thorough { 40 } else { 24 });
-    let base = req(Kind::Echo, Flag::None, &long_tok);
-    let mut mutants: Vec<(String, Vec<u8>)> = vec![];
-    let step = if thorough { 1 } else { 1 };
-    let mut pos = 0;
-    while pos < base.len() - 1 {
-        let mut m = base.clone();
-        m[pos] ^= 0x80;
-        mutants.push((format!("flip80@{}", pos), m));
-        let mut m = base.clone();
-        m.insert(pos, 0xff);
-        mutants.push((format!("ff@{}", pos), m));
-        if pos % 3 == 0 {
-            let mut m = base[..pos].to_vec();
-            m.push(0);
-            mutants.push((format!("cut@{}", pos), m));
-            // garbage prefix of varying length in front of an intact message (shifts every offset)
-            let mut m: Vec<u8> = std::iter::repeat(b'#').take(pos % 70).collect();
-            m.extend_from_slice(&base);
-            mutants.push((format!("shift@{}", pos), m));
-        }
-        pos += step;
-    }
-    for (n, m) in mutants {
-        let a = ConnSpec { chunks: vec![m], closes: false, healthy: false, name: n.clone(), after_ticks: 0, close_after_ticks: 0, resets: false };
-        v.push((format!("wide-{}", n), lspec("C06", Mode::Independent, 1, 3, 0, false, vec![a, healthy("B", 0)])));
-    }
-    v
-}
-
-fn c06l(args: &Args) -> ! {
-    let mut rep = Report::new("C06", "neighbour clause through the real listen(): a connection carrying each of 8 representative malformed streams beside a healthy pipelined connection and a later third connection, every interleaving within the deviation bound (quick 1, thorough 2); plus a wide family (default schedule only): a long request with multi-byte characters at every offset, corrupted at every byte position (bit 0x80 flipped, 0xFF inserted, cut, shifted by a garbage prefix), beside a healthy connection; oracle: the healthy connections receive byte-for-byte their solo reply streams, no thread panics; non-trivial = distinct complete executions");
-    install_hooks();
-    if args.replay.is_some() {
-        let mut all = c06l_specs(true);
-        all.extend(c06w_specs(true));
-        all.extend(c06w_specs(false));
-        replay_family(args, &mut rep, all, 3000);
-    }
-    let specs = c06l_specs(args.thorough());
-    let fc = FamilyCfg { bound: if args.thorough() { 2 } else { 1 }, stateful: false, env_order_free: false, max_execs: if args.thorough() { 20_000 } else { 600 }, horizon: 3000 };
-    run_family(args, &mut rep, specs, &fc, Duration::from_secs(if args.thorough() { 1200 } else { 40 }));
-    let wide = c06w_specs(args.thorough());
-    let fc0 = FamilyCfg { bound: 0, stateful: false, env_order_free: false, max_execs: 4, horizon: 3000 };
-    run_family(args, &mut rep, wide, &fc0, Duration::from_secs(if args.thorough() { 600 } else { 40 }));
-    rep.finish(args)
-}
+include!("../listen_families.inc");
 
 // ================================================================================== real-socket conformance (one OS schedule per case)
 
